@@ -413,12 +413,90 @@ def builtins_shard(args):
     return agg
 
 
+# ------------------------------------------------------------------------------------------------
+# imports are delayed expressions too: an imported file is evaluated at most once however it is spelled and however
+# often it is used, and an import the result does not depend on is never evaluated (real files, real CLI)
+
+def imports_shard(args):
+    seed, = args
+    import json
+    import os
+    import shutil
+    import subprocess
+    import tempfile
+    agg = Agg()
+    os.makedirs(common.SCRATCH, exist_ok=True)
+    d = tempfile.mkdtemp(dir=common.SCRATCH, prefix="c04imp")
+    try:
+        os.makedirs(os.path.join(d, "sub"))
+        os.makedirs(os.path.join(d, "jlib"))
+        files = {"lib.libsonnet": "std.trace('EVAL-lib', {v: 1, w: self.v + 1})", "sub/inner.libsonnet": "std.trace('EVAL-inner', {u: (import '../lib.libsonnet').v})",
+                 "boom.libsonnet": "error 'boom-file'", "syntax.libsonnet": "{a: ", "jlib/jl.libsonnet": "std.trace('EVAL-jl', 5)",
+                 "f.libsonnet": "std.trace('EVAL-f', function(x) x + 1)"}
+        for rel, text in files.items():
+            with open(os.path.join(d, rel), "w") as f:
+                f.write(text)
+        absl = os.path.join(d, "lib.libsonnet")
+        cases = [
+            ("[(import 'lib.libsonnet').v, (import './lib.libsonnet').w, (import 'sub/../lib.libsonnet').v, (import %s).w]" % common.jstr(absl), [1, 2, 1, 2], {"EVAL-lib": 1}),
+            ("local f(n) = (import 'lib.libsonnet').v + n; [f(1), f(2), f(3)]", [2, 3, 4], {"EVAL-lib": 1}),
+            ("[(import 'lib.libsonnet').w for i in std.range(1, 10)][9]", 2, {"EVAL-lib": 1}),
+            ("[(import 'sub/inner.libsonnet').u, (import 'lib.libsonnet').v, (import 'sub/./inner.libsonnet').u]", [1, 1, 1], {"EVAL-lib": 1, "EVAL-inner": 1}),
+            ("local u = import 'boom.libsonnet'; 1", 1, {}),
+            ("local u = import 'no-such-file.libsonnet'; 2", 2, {}),
+            ("local u = import 'syntax.libsonnet'; 3", 3, {}),
+            ("{a: import 'boom.libsonnet', b: 4}.b", 4, {}),
+            ("[import 'boom.libsonnet', 5][1]", 5, {}),
+            ("(function(a, b) b)(import 'boom.libsonnet', 6)", 6, {}),
+            ("if true then 7 else import 'boom.libsonnet'", 7, {}),
+            ("local u = importstr 'no-such.txt', w = importbin 'no-such.bin'; 8", 8, {}),
+            ("std.length([import 'boom.libsonnet', import 'lib.libsonnet'])", 2, {}),
+            ("local l = import 'lib.libsonnet'; std.length(std.objectFields(l)) + l.v + l.v", 4, {"EVAL-lib": 1}),
+            ("[(import 'jl.libsonnet'), (import 'jl.libsonnet') + 1, (import %s)]" % common.jstr(os.path.join(d, "jlib", "jl.libsonnet")), [5, 6, 5], {"EVAL-jl": 1}),
+            ("local g = import 'f.libsonnet'; [g(1), g(2), (import 'f.libsonnet')(3)]", [2, 3, 4], {"EVAL-f": 1}),
+            ("{a: (import 'lib.libsonnet').v, b: self.a + (import 'lib.libsonnet').w} + {c: (import 'lib.libsonnet').v}", {"a": 1, "b": 3, "c": 1}, {"EVAL-lib": 1}),
+        ]
+        for src, want, traces in cases:
+            root = os.path.join(d, "root.jsonnet")
+            with open(root, "w") as f:
+                f.write(src)
+            for argv in (["-J", os.path.join(d, "jlib"), root], ["-J", os.path.join(d, "jlib"), "-J", d, "-e", src]):
+                agg.evaluations += 1
+                try:
+                    p = subprocess.run([common.CLI] + argv, capture_output=True, timeout=60, env=dict(os.environ, NO_COLOR="1"), cwd=d)
+                except subprocess.TimeoutExpired:
+                    agg.inconc("timeout")
+                    continue
+                errs = p.stderr.decode("utf-8", "replace")
+                desc = {"program": src.replace(d, "<dir>"), "argv": [a.replace(d, "<dir>") for a in argv], "exit": p.returncode,
+                        "stdout": p.stdout[:200].decode("utf-8", "replace"), "stderr": errs[-500:].replace(d, "<dir>")}
+                try:
+                    got = json.loads(p.stdout.decode("utf-8")) if p.returncode == 0 else None
+                except ValueError:
+                    got = None
+                if got != want:
+                    agg.violation({"kind": "import_laziness", "src": src[:50].replace(d, "<dir>")}, dict(desc, expected=want), {"argv": argv})
+                    continue
+                seen = {k: errs.count("TRACE: " + k) for k in ("EVAL-lib", "EVAL-inner", "EVAL-jl", "EVAL-f")}
+                bad = {k: v for k, v in seen.items() if v != traces.get(k, 0)}
+                if bad:
+                    agg.violation({"kind": "imported_file_evaluation_count", "file": sorted(bad)[0]}, dict(desc, counts=seen, expected=traces), {"argv": argv})
+                    continue
+                agg.count("import_cases_ok")
+                agg.nontrivial.add(common.h64("imp", src, " ".join(argv)))
+    finally:
+        shutil.rmtree(d, ignore_errors=True)
+    return agg
+
+
 def run(tier, seed):
     t0 = time.time()
     quick = tier != "thorough"
     total = Agg()
     n = 5000 if quick else 300_000
     for a in common.pmap(program_shard, [(seed * 1013 + i, n // 64) for i in range(64)]):
+        total.merge(a)
+    for a in common.pmap(imports_shard, [(seed,)]):
         total.merge(a)
     for a in common.pmap(builtins_shard, [(seed, 0)]):
         total.merge(a)
@@ -430,7 +508,7 @@ def run(tier, seed):
             "local, identity function, one-element array, one-field object when self/super/$-free, dead local, dead "
             "array element, dead hidden field, dead defaulted parameter) leave value, error message and trace "
             "sequence unchanged; (3) a table of builtins/constructs whose unused elements are failing expressions and "
-            "whose used elements are traced exactly once. distinct_nontrivial = programs with at least one dead "
+            "whose used elements are traced exactly once. imports through the CLI with real files: a file imported through several spellings / in a function called repeatedly / in a comprehension is evaluated once (trace count), and an import the result does not depend on (failing, missing or syntactically broken file) is never evaluated. distinct_nontrivial = programs with at least one dead "
             "binding whose trace multiset matched + distinct rewritten programs compared + table cases.")
     return common.finish(PROP, tier, seed, total, rule, t0,
                          assumptions=["the reference interpreter's force log defines which thunk instances call-by-need evaluates",
